@@ -22,6 +22,9 @@ type Case struct {
 	// OnDataFrame, "dataframe" = OnDataFrame only (frames are handed through one by one: the frame-level rules
 	// are asserted, the message-level ones - UTF-8 of the assembled text, inflating, limits - are not)
 	Handlers string `json:"handlers,omitempty"`
+	// WriteCompOff: the application switched compression of its own messages off on this connection
+	// (Conn.EnableWriteCompression(false)); what the peer may send is decided by the negotiation alone
+	WriteCompOff bool `json:"write_compression_off,omitempty"`
 }
 
 // ---------- generators ----------
@@ -58,6 +61,7 @@ func genCloseCode(t *rapid.T) int {
 func Gen(t *rapid.T) Case {
 	c := Case{ReceiverClient: rapid.Bool().Draw(t, "receiver_client"), Compression: rapid.Bool().Draw(t, "compression"), CloseHandler: rapid.Bool().Draw(t, "closehandler")}
 	c.Handlers = rapid.SampledFrom([]string{"", "", "", "both", "dataframe"}).Draw(t, "handlers")
+	c.WriteCompOff = c.Compression && rapid.IntRange(0, 3).Draw(t, "writecompoff") == 0
 	masked := !c.ReceiverClient
 	if rapid.IntRange(0, 7).Draw(t, "flipmask") == 0 {
 		masked = !masked
